@@ -42,6 +42,13 @@ Section C13.
     induction l as [|a l IH]; cbn [filter]; [reflexivity|].
     destruct (F a), (G a); cbn [orb andb length]; lia.
   Qed.
+  (* adding an unused variable doubles the count *)
+  Theorem C13_unused_variable_doubles n (F : bfun) : ext F -> indep F (N.of_nat (S n)) ->
+    count (upto (S n)) F = 2 * count (upto n) F.
+  Proof.
+    intros HF HI. unfold upto. rewrite seq_S, map_app. cbn [map]. change (1 + n)%nat with (S n).
+    exact (count_snoc_indep (map N.of_nat (List.seq 1 n)) F (N.of_nat (S n)) HF HI).
+  Qed.
 End C13.
 
 Print Assumptions C13_sat_count.
@@ -49,3 +56,4 @@ Print Assumptions C13_complement.
 Print Assumptions C13_length_upto.
 Print Assumptions C13_true_counts_all.
 Print Assumptions C13_inclusion_exclusion.
+Print Assumptions C13_unused_variable_doubles.
